@@ -40,13 +40,17 @@ class Translator:
     self.funcs = {n.name: n for n in tree.body if isinstance(n, ast.FunctionDef)}
     self.assigns = []
     self.counter = 0
+    self.opaque_calls = set()
+    self.consts = {}        # local names bound to literal (atom) values: usable inside leaf expressions
 
   def fresh(self):
     self.counter += 1
     return self.counter
 
   def pyeval(self, node):
-    return eval(compile(ast.Expression(node), '<leaf>', 'eval'), self.ns)
+    ns = dict(self.ns)
+    ns.update(self.consts)
+    return eval(compile(ast.Expression(node), '<leaf>', 'eval'), ns)
 
   def try_pyeval(self, node):
     try:
@@ -56,7 +60,7 @@ class Translator:
 
   # -- expressions ---------------------------------------------------------------------
   def expr(self, node, env):
-    if isinstance(node, ast.Name) and node.id in env:
+    if isinstance(node, ast.Name) and node.id in env and node.id not in self.consts:
       return {'v': env[node.id]}
     if isinstance(node, ast.Call):
       return self.call(node, env)
@@ -71,7 +75,7 @@ class Translator:
     return {'a': tok}
 
   def mentions_local(self, node, env):
-    return any(isinstance(n, ast.Name) and n.id in env for n in ast.walk(node))
+    return any(isinstance(n, ast.Name) and n.id in env and n.id not in self.consts for n in ast.walk(node))
 
   def display(self, node, env):
     if isinstance(node, ast.Dict):
@@ -103,8 +107,28 @@ class Translator:
       return (node.args[0], sorted(targets.tag_no(t) for t in tags))
     return None
 
-  def cfg_node(self, fn, bk, keywords, env):
+  def cfg_node(self, fn, bk, keywords, env, positional=()):
     ch, tags = [], []
+    if positional:
+      import inspect
+      if any(isinstance(a, ast.Starred) for a in positional):
+        raise Unsupported('*splat argument')
+      try:
+        params = list(inspect.signature(fn).parameters.values())
+      except (TypeError, ValueError):
+        raise Unsupported('callable without a signature')
+      for i, a in enumerate(positional):
+        K = inspect.Parameter
+        if i < len(params) and params[i].kind is K.POSITIONAL_OR_KEYWORD:
+          key = ['a', params[i].name]
+        elif any(q.kind is K.VAR_POSITIONAL for q in params) or (i < len(params) and params[i].kind is K.POSITIONAL_ONLY):
+          key = ['i', i]
+        else:
+          raise Unsupported('too many positional arguments')
+        tv = self.tagged(a, env)
+        if tv is not None:
+          raise Unsupported('tagged positional argument')
+        ch.append([key, self.expr(a, env)])
     for k in keywords:
       if k.arg is None:
         raise Unsupported('** in a constructor call')
@@ -128,15 +152,15 @@ class Translator:
       raise Unsupported(f'call of a local value: {ast.unparse(node)}')
     f = self.pyeval(node.func)
     if f in (fdl.Config, fdl.Partial, fdl.ArgFactory):
-      if len(node.args) != 1:
-        raise Unsupported('positional arguments in a Buildable constructor')
+      if self.mentions_local(node.args[0], env) or isinstance(node.args[0], ast.Call):
+        raise Unsupported('callable given by an expression')
       fn = self.pyeval(node.args[0])
-      return self.cfg_node(fn, f.__name__, node.keywords, env)
+      return self.cfg_node(fn, f.__name__, node.keywords, env, node.args[1:])
     if f is functools.partial and self.auto:
+      if self.mentions_local(node.args[0], env) or isinstance(node.args[0], ast.Call):
+        raise Unsupported('functools.partial of an expression')
       fn = self.pyeval(node.args[0])
-      if len(node.args) != 1:
-        raise Unsupported('positional arguments in functools.partial')
-      return self.cfg_node(fn, 'Partial', node.keywords, env)
+      return self.cfg_node(fn, 'Partial', node.keywords, env, node.args[1:])
     if self.tagged(node, env) is not None:
       raise Unsupported('TaggedValue / with_tags outside an argument position')
     module = getattr(f, '__module__', '') or ''
@@ -149,9 +173,11 @@ class Translator:
     if self.auto and callable(f):
       if module.startswith('fiddle') or module == 'functools':
         raise Unsupported(f'helper call: {ast.unparse(node.func)}')
-      if node.args:
-        raise Unsupported('positional arguments in a call')
-      return self.cfg_node(f, 'Config', node.keywords, env)
+      if getattr(f, '__name__', '') in self.opaque_calls or isinstance(f, type(lambda: 0)) and f.__name__ == '<lambda>':
+        raise Unsupported(f'call outside the modelled subset: {ast.unparse(node.func)}')
+      if hasattr(f, 'as_buildable'):
+        raise Unsupported('call of another auto_config function')
+      return self.cfg_node(f, 'Config', node.keywords, env, node.args)
     raise Unsupported(f'call: {ast.unparse(node.func)}')
 
   # -- function bodies -----------------------------------------------------------------
@@ -178,10 +204,19 @@ class Translator:
       if isinstance(st, ast.Expr) and isinstance(st.value, ast.Constant):
         continue                                        # docstring
       if isinstance(st, ast.Assign) and len(st.targets) == 1 and isinstance(st.targets[0], ast.Name):
+        name = st.targets[0].id
         e = self.expr(st.value, env)
+        if 'a' in e and not self.mentions_local(st.value, env):
+          ok, val = self.try_pyeval(st.value)
+          if ok and graphs.is_atom(val):
+            self.consts[name] = val
+          else:
+            self.consts.pop(name, None)
+        else:
+          self.consts.pop(name, None)
         x = self.fresh()
         self.assigns.append([x, e])
-        env[st.targets[0].id] = x
+        env[name] = x
       elif isinstance(st, ast.Return):
         return self.expr(st.value, env)
       else:
@@ -189,11 +224,19 @@ class Translator:
     raise Unsupported('no return')
 
 
-def program_of(code, namespace, auto, entry='config_fixture'):
+def program_of(code, namespace, auto, entry='config_fixture', args=None, opaque_calls=()):
+  """`args`: literal values of the entry function's parameters (name -> atom)."""
   tree = ast.parse(code)
   tr = Translator(tree, namespace, auto)
+  tr.opaque_calls = set(opaque_calls)
+  env = {}
+  for name, val in (args or {}).items():
+    x = tr.fresh()
+    tr.assigns.append([x, {'a': token_of(val)}])
+    env[name] = x
+    tr.consts[name] = val
   try:
-    ret = tr.body(tr.funcs[entry], {})
+    ret = tr.body(tr.funcs[entry], env)
   except Unsupported:
     raise
   except Exception as e:
